@@ -453,6 +453,9 @@ class HttpProxyPlugin(HttpProtocolHandlerPlugin):
                         assert self.pipeline_request is not None
                         r = plugin.handle_client_request(self.pipeline_request)
                         if r is None:
+                            # Request dropped by plugin, start afresh
+                            # with the next request on this connection
+                            self.pipeline_request = None
                             return
                         self.pipeline_request = r
                     assert self.pipeline_request is not None
